@@ -4,11 +4,33 @@ import json, os
 V = os.path.dirname(os.path.dirname(os.path.abspath(__file__)))
 props = [json.loads(l) for l in open(os.path.join(V, "properties.jsonl"))]
 
+TECH = "TLA+ spec model-checked with TLC; TLC-generated behaviours replayed into the implementation"
 STREAM_NOTE = ("Trusted: TLC, the transcription of the stream documentation into Streams.tla, the replay harness; numeric agreement is "
                "decided in the exact dyadic domain (sample values, gains, ticks are small dyadic rationals; tolerance 2^-16 of the "
                "largest magnitude in the behaviour); absolute accuracy on arbitrary non-dyadic floats is not decided by this check.")
-TECH = "TLA+ spec model-checked with TLC; TLC-generated behaviours replayed into the implementation"
+TECH0 = "TLA+ spec model-checked with TLC; TLC-generated behaviours replayed into the implementation"
+DEV_NOTE = ("Trusted: TLC, the transcription of the device rules into Devices.tla, the replay harness (real terminals and devices are "
+            "built per behaviour and every terminal is read after every action); timestamps are ranks mapped monotonically to i64; "
+            "numeric agreement within 2^-16 of the largest magnitude in the behaviour.")
 CLAIMS = {
+ "C08": dict(design_ref="DESIGN.md section 4, C08",
+    text="TLC checks on Devices.tla, on every update step of every explored history, that the written states satisfy the device constraint, "
+         "satisfy the normal equations of the least-squares projection of the reads (exact rationals), are unchanged when the reads already "
+         "satisfy the constraint, carry the newest read time, that one-sided information is propagated and that a differential waits for "
+         "its trusted branches; every behaviour is replayed on real devices (state reads and own state slots of all terminals compared).",
+    note=DEV_NOTE, technique=TECH),
+ "C09": dict(design_ref="DESIGN.md section 4, C09",
+    text="TLC explores the complete connect/disconnect graph for 2..6 terminals (76 matchings at 6) with the invariant Matching and the "
+         "action property ConnectLaw, and emits every matching x every operation (and pairs of operations) plus, for 2-3 terminals, every "
+         "presence/timestamp pattern of own states and commands; each is replayed on real terminals, all three reads compared, a panic "
+         "being a mismatch.",
+    note=DEV_NOTE, technique=TECH),
+ "C13": dict(design_ref="DESIGN.md section 4, C13",
+    text="TLC checks on Devices.tla the action property RelayLaw (after an update every terminal of an inverter / gear train / axle reads "
+         "the newest command present before it, mapped from the issuing to the reading side) and the invariant ChainLaw (chains of 1..3 "
+         "devices updated in order deliver the command scaled by the product of ratios); behaviours are replayed on real devices and "
+         "chains (command reads and own command slots of all terminals compared), differentials must leave commands untouched.",
+    note=DEV_NOTE, technique=TECH),
  "C04": dict(design_ref="DESIGN.md section 4, C04",
     text="TLC checks on Streams.tla (machine PID) that the incremental controller equals the closed-form textbook PID over the run of "
          "samples since the last absent/error event (PIDRef) for every history up to the bound and random histories up to 64 events; "
